@@ -284,7 +284,7 @@ pub fn run(tier: Tier, seed: u64) -> i32 {
   let mut report = Report::new("C15", tier, seed, "exploration", rule);
   let known = Known::load("C15");
   super::prologue(&mut report, &known);
-  let (shards, cases) = match tier { Tier::Quick => (8, 5000), Tier::Thorough => (16, 60000) };
+  let (shards, cases) = match tier { Tier::Quick => (16, 5000), Tier::Thorough => (16, 60000) };
   let cfg = SearchCfg { prop: "C15", label: "keys", seed, shards, cases_per_shard: cases, max_shrink_iters: 2000 };
   let (stats, found) = driver::search(&cfg, &known, strategy, |c, s| check(c, s), |c| format!("{:?}", c));
   report.absorb("keys", stats, found);
